@@ -194,6 +194,71 @@ PRED_CONSUMERS = {"filter", "find", "sorted_by_key", "sorted_unstable_by_key", "
                   "max_by_key", "min_by_key", "position", "any", "all", "sort_by_key", "sort_by", "retain", "with_context"}
 
 
+def literal_item(e):
+    """an ("item", iterator over a literal array [x1, .., xk], loop) node inside e -> (node, elements)"""
+    for x in walk(e):
+        if x[0] == "item":
+            it = strip_load(x[1])
+            if it[0] == "iter" and len(it) == 3:
+                arr = strip_load(it[1])
+                for _ in range(3):
+                    if arr[0] == "cast":
+                        arr = strip_load(arr[2])
+                if arr[0] == "array" and 0 < len(arr[1]) <= 8:
+                    return x, list(arr[1])
+    return None
+
+
+def unroll_literal_loops(evs):
+    """`for x in [a, b] { body }`: every event of the body becomes one event per element, with the loop item replaced by
+    the element (and the iteration's own Some/None bookkeeping dropped from its guards)"""
+    out = []
+    for e in evs:
+        exprs = []
+        if e.kind == "write":
+            exprs = [e.d.get("loc"), e.d.get("val")]
+        else:
+            exprs = list(e.d.get("args", ()))
+        hit = None
+        for x in exprs:
+            if isinstance(x, tuple):
+                hit = literal_item(x)
+                if hit:
+                    break
+        if hit is None:
+            out.append(e)
+            continue
+        node, elems = hit
+        key = strip_sites(node)
+
+        def rep(x, el):
+            if not isinstance(x, tuple) or not x or isinstance(x, frozenset):
+                return x
+            if x[0] == "item" and strip_sites(x) == key:
+                return el
+            return tuple(rep(y, el) if isinstance(y, tuple) and not isinstance(y, frozenset) else y for y in x)
+        for el in elems:
+            d = dict(e.d)
+            if e.kind == "write":
+                d["loc"] = rep(d["loc"], el)
+                d["val"] = rep(d["val"], el)
+            else:
+                d["args"] = tuple(rep(a, el) for a in d["args"])
+            facts = frozenset(rep(f, el) for f in e.facts
+                              if not (f[0] == "in" and strip_load(f[1])[0] == "discr" and strip_load(strip_load(f[1])[1])[0] == "next" and
+                                      strip_sites(strip_load(strip_load(f[1])[1])[1]) == strip_sites(node[1])))
+            ne = Ev(e.kind, e.body, e.site, facts, e.chain, **d)
+            ne.uncond = e.uncond
+            if not e.uncond and isinstance(node[2], int) and not e.chain:
+                # nothing but the iteration itself guards the event: it happens for every element
+                hdr = e.body.facts_at((node[2], 0))
+                pd = e.body.pdom()
+                if facts <= frozenset(rep(f, el) for f in hdr) and 0 in pd and node[2] in pd[0]:
+                    ne.uncond = True
+            out.append(ne)
+    return out
+
+
 class Collector:
     """collects raw events (field writes and calls) of a root body, following crate-local
     helpers and closures, with parameters / captures substituted"""
@@ -208,7 +273,7 @@ class Collector:
     def collect(self, root):
         out = []
         self._collect(root, {}, frozenset(), (), 0, out, True, set())
-        return out
+        return unroll_literal_loops(out)
 
     def _sub(self, e, mapping, body):
         if not mapping:
